@@ -43,7 +43,9 @@ ASSUMPTIONS = [
     'the regular expressions of is_var_reference and ParseDataReference are the recognisers of coq/Ref/Model.v (C09)',
     'the workflow model has one platform, no DoWhile/import documents, no interface, no application dependencies; '
     'replication appears in the load correspondence only through the real loader (primitive=False); the Coq mirror of the '
-    'expansion (coq/Valid/Replicate.v) uses structured (component, replica index) identifiers and is not compared',
+    'expansion (coq/Valid/Replicate.v) uses structured (component, replica index) identifiers and is not compared; '
+    'in a generated workflow that replicates, a component name is used in one stage only and one replica count is used '
+    '(the textual rewriting of replica references and inconsistent replica counts are outside the property)',
     'global variables are resolved among themselves and stored in place before components are resolved '
     '(FlowIRConcrete.instance): a global whose transitive mentions are all globals is a constant for the components',
     'the rendering of a structured workflow into a FlowIR dictionary (harness) is trusted',
@@ -545,10 +547,15 @@ def gen_wf(rng):
     comps = []
     used = set()
     stage = 0
+    # aggregating / replicating components in about 7 workflows of 10; there a name is used in one stage only: the
+    # loader rewrites the references of a replica textually (`x1:ref` inside `stage0.x1:ref`), a replicated and a plain
+    # producer of the same name in two stages make it reject a well-formed workflow (outside the property and the model)
+    with_replication = rng.random() < 0.7
     for i in range(n):
         if i and rng.random() < 0.4:
             stage += 1
-        name = rng.choice([x for x in NAMES if (stage, x) not in used])
+        name = rng.choice([x for x in NAMES if (stage, x) not in used
+                           and not (with_replication and x in [u[1] for u in used])])
         used.add((stage, name))
         prev = [(c['stage'], c['name']) for c in comps]
         k = rng.randint(0, min(2, len(prev)))
@@ -570,9 +577,8 @@ def gen_wf(rng):
         c['idx_uses'] = [u for u in c['uses']
                          if (c['vars'].get(u) == [] or (u not in c['vars'] and gvars.get(u) == [])) and rng.random() < 0.35]
         c['opts'] = copy.deepcopy(rng.choice(OPTION_SETS))
-    # aggregating / replicating components (one replica count per workflow: the counts that reach a component must be
-    # consistent); about 7 workflows in 10 have some
-    if rng.random() < 0.7:
+    # (one replica count per workflow: the counts that reach a component must be consistent)
+    if with_replication:
         repn = rng.randint(1, 3)
         for c in comps:
             r = rng.random()
@@ -813,19 +819,28 @@ def load_mutants(w, tier, rng, corpus=False):
             out.append(('WrongType', True, [], m))
     # ---- WrongType, scalar for scalar: a float / string / int / bool / dictionary at an option of the conversion table
     base_term = c_wf(base)
+    repn = ([(c['opts'].get('workflowAttributes') or {}).get('replicate') for c in w['comps']
+             if (c['opts'].get('workflowAttributes') or {}).get('replicate')] or [None])[0]
     for i in range(n):
         doc = base['comps'][i]['doc']
         cand = [(pth, v) for pth in sorted(CONV_TABLE) for v in SCALAR_VALUES]
         if tier == 'quick':
             cand = rng.sample(cand, 8)
-        elif i > 1:
-            cand = rng.sample(cand, 60)
+        elif not (corpus and i < 2):
+            cand = rng.sample(cand, 25)     # (the full cross product on two components of each corpus workflow)
         if corpus and i == 0:
             cand = CORPUS_SCALARS + cand
         for pth, v in cand:
             faulty = scalar_fault(pth, v)
             if faulty is None or (not faulty and tuple(pth) in NAME_OPTIONS):
                 continue
+            if tuple(pth) == ('workflowAttributes', 'replicate') and not faulty:
+                # a coerced replica count must agree with the count the other producers of the workflow use (two
+                # different counts reaching one component are refused - a fault the property does not list)
+                if repn is not None:
+                    v = str(repn) if isinstance(v, str) else repn
+                elif len(set(c['name'] for c in w['comps'])) < n:
+                    continue    # (replicas and a name used in two stages: textual rewriting of references, see gen_wf)
             m = fresh()
             finalize(m)
             put_path(m['comps'][i]['doc'], list(pth), copy.deepcopy(v))
@@ -1009,7 +1024,7 @@ CORPUS_WF_AGG = {'gvars': {'g0': []},
                            {'stage': 0, 'name': 'b', 'refs': [(0, 'gen')], 'uses': ['g0'], 'vars': {}, 'opts': {}},
                            {'stage': 0, 'name': 'x1', 'refs': [(0, 'b')], 'uses': [], 'vars': {'lv': ['g0']}, 'opts': AGG},
                            {'stage': 1, 'name': 'a', 'refs': [(0, 'x1')], 'uses': ['g0'], 'vars': {}, 'opts': OPTION_SETS[1]},
-                           {'stage': 1, 'name': 'b', 'refs': [(1, 'a'), (0, 'x1')], 'uses': [], 'vars': {}, 'opts': AGG}]}
+                           {'stage': 1, 'name': 'm.n', 'refs': [(1, 'a'), (0, 'x1')], 'uses': [], 'vars': {}, 'opts': AGG}]}
 
 
 def explore_loads(ctx, items):
